@@ -87,15 +87,15 @@ structure CountOK (v : CountView) : Prop where
 
 theorem ix2_of_has {β : Type} [DecidableEq β] {c : Nat} {t : Tbl (β × Nat) Unit}
     (h : ∀ a i, t.has (a, i) = true → i ≤ c) : Tbl.All (Ix2 c) t :=
-  fun k _ hv => h k.1 k.2 (Tbl.has_of_get hv)
+  fun k _ hv => h k.1 k.2 (Tbl.has_of_get_A hv)
 
 theorem ix1_of_has {β : Type} [DecidableEq β] {c : Nat} {t : Tbl (Nat × β) Unit}
     (h : ∀ i a, t.has (i, a) = true → i ≤ c) : Tbl.All (Ix1 c) t :=
-  fun k _ hv => h k.1 k.2 (Tbl.has_of_get hv)
+  fun k _ hv => h k.1 k.2 (Tbl.has_of_get_A hv)
 
 theorem ix3_of_has {β γ : Type} [DecidableEq β] [DecidableEq γ] {c : Nat} {t : Tbl (β × γ × Nat) Unit}
     (h : ∀ a b i, t.has (a, b, i) = true → i ≤ c) : Tbl.All (Ix3 c) t :=
-  fun k _ hv => h k.1 k.2.1 k.2.2 (Tbl.has_of_get hv)
+  fun k _ hv => h k.1 k.2.1 k.2.2 (Tbl.has_of_get_A hv)
 
 theorem has_of_ix2 {β : Type} [DecidableEq β] {c : Nat} {t : Tbl (β × Nat) Unit}
     (h : Tbl.All (Ix2 c) t) : ∀ a i, t.has (a, i) = true → i ≤ c := by
@@ -656,7 +656,7 @@ theorem mintBeginBlock_count (s : State) (hi : CountInv s) : CountInv (mintBegin
 theorem distrSweep_count (s : State) (hi : CountInv s) : CountInv (distrSweep s) :=
   CountInv.of_mframe (distrSweep_mframe s) hi
 
-theorem payoutAdvance_id (p : Payout) : (payoutAdvance p).id = p.id := by
+theorem payoutAdvance_id_A (p : Payout) : (payoutAdvance p).id = p.id := by
   unfold payoutAdvance; simp only; split <;> rfl
 
 theorem payoutStep_count {s s' : State} {k : Time × Nat} (h : payoutStep s k = .ok s') (hi : CountInv s) : CountInv s' := by
@@ -673,7 +673,7 @@ theorem payoutStep_count {s s' : State} {k : Time × Nat} (h : payoutStep s k = 
   have i3 := CountInv.of_mframe f3 i1
   have e3 : s3.subCount = s.subCount := (subCount_of_mframe f3).trans rfl
   have hp' : PayP (s3.subCount.getD 0) (payoutAdvance item).id (payoutAdvance item) := by
-    rw [e3]; exact ⟨rfl, by rw [payoutAdvance_id]; exact hp.2.1, by rw [payoutAdvance_id]; exact hp.2.2⟩
+    rw [e3]; exact ⟨rfl, by rw [payoutAdvance_id_A]; exact hp.2.1, by rw [payoutAdvance_id_A]; exact hp.2.2⟩
   rw [countInv_iff] at i3 ⊢
   split <;>
   · constructor
